@@ -35,7 +35,7 @@ META = {
             "tail leaves a live run unreachable by Stop (fix proposed), a user Start overlapping a recovery's nested Start leaves a live "
             "run under status Degraded in both engines, and v1 Stop(graceful) racing a finishing source node deadlocks "
             "(InjectControlMessage holds the node lock); the last two are recorded in known_findings.json. Only local progress of the "
-            "cleanup goroutine is proved (C11_no_wedge_partial). Trusted: Lean kernel, factgen, harness, Go runtime, tomb.v2.",
+            "cleanup goroutine is proved (C11_no_wedge_partial). Trusted: Lean kernel, factgen, harness, Go runtime, tomb.v2. Status: the blind delete (F17) and the source leak on a failed worker open (F21) are repaired in /repo; recorded and reported as KNOWN-FINDING: overlapping starts, v1 graceful-stop deadlock, v1 stop-marker findings, v2-start-racing-recovery-finalisation, and the processor-reservation leaks of a failed build (both engines) and of a failed open phase (v2), with proposed fixes in proposed_fixes/. The open phase is un-folded in Model/LifecycleOpen (C11_failed_start_releases_all), the build step in Model/Rebuild (Props/C11Build).",
     "technique": "Lean 4 invariant proofs over an event-system model + trace acceptance / monitors against the real lifecycle services",
 }
 
